@@ -241,9 +241,28 @@ Proof.
 Qed.
 Print Assumptions C08_div_never_inf.
 
-Theorem C08_div_instance x : divc x (Some 0) = None /\ divc x None = None /\ (forall a b, b <> 0 -> divc (Some (a * b)) (Some b) = Some a).
+Theorem C08_div_instance x :
+  divc x (Some 0) = None /\ divc x None = None /\
+  (forall a b, b <> 0 -> b <> INFZ -> b <> - INFZ -> a * b <> INFZ -> a * b <> - INFZ -> divc (Some (a * b)) (Some b) = Some a).
 Proof. split; [apply divc_zero | split; [apply divc_nan_r | apply divc_exact]]. Qed.
 Print Assumptions C08_div_instance.
+
+(* +-inf operands (a cell Some (+-INFZ)): only a ZERO denominator becomes NaN - an infinite numerator over a non-zero
+   finite denominator stays infinite (it is the pointwise IEEE result, not a division by zero); the other IEEE results that
+   need no rounding: finite / inf = 0, inf / inf = NaN, inf + finite = inf, inf - inf = NaN, inf * 0 = NaN *)
+Theorem C08_inf_arithmetic a : a <> INFZ -> a <> - INFZ ->
+  (a <> 0 ->
+     divc (Some INFZ) (Some a) = Some (if 0 <? a then INFZ else - INFZ) /\
+     divc (Some (- INFZ)) (Some a) = Some (if a <? 0 then INFZ else - INFZ) /\
+     divc (Some a) (Some INFZ) = Some 0 /\ divc (Some INFZ) (Some INFZ) = None /\ divc (Some INFZ) (Some (- INFZ)) = None) /\
+  addc (Some INFZ) (Some a) = Some INFZ /\ addc (Some a) (Some (- INFZ)) = Some (- INFZ) /\
+  addc (Some INFZ) (Some (- INFZ)) = None /\ subc (Some INFZ) (Some INFZ) = None /\ subc (Some a) (Some INFZ) = Some (- INFZ) /\
+  mulc (Some INFZ) (Some 0) = None /\ mulc (Some INFZ) (Some INFZ) = Some INFZ /\
+  (0 < a -> mulc (Some a) (Some (- INFZ)) = Some (- INFZ)) /\ (a < 0 -> mulc (Some a) (Some (- INFZ)) = Some INFZ).
+Proof.
+  intros A1 A2. split; [intros A0; exact (divc_inf a A0 A1 A2) | exact (arith_inf a A1 A2)].
+Qed.
+Print Assumptions C08_inf_arithmetic.
 
 (* the pinned tree (before fixes/C08.patch): a scalar zero divisor returns the scalar nan, the index is lost *)
 Theorem C08_div_scalar_zero_pinned_refuted :
